@@ -193,8 +193,8 @@ void procs_gen(plan *p, uint64_t seed, const char *cfg)
                     plan_add(p, "PREL", 3, I, pp, (int64_t)(vrng_chance(&r, 1, 2) ? 5 : vrng_below(&r, 6)));
                     emitted += 2;
                     break; }
-                case K_BPUT: plan_add(p, "BPUT", 3, I, (int64_t)vrng_below(&r, (uint64_t)nbuf), vrng_chance(&r, 1, 8) ? (int64_t)(100 + vrng_below(&r, 4)) : (int64_t)(1 + vrng_below(&r, 5))); break;
-                case K_BGET: plan_add(p, "BGET", 3, I, (int64_t)vrng_below(&r, (uint64_t)nbuf), vrng_chance(&r, 1, 8) ? (int64_t)(100 + vrng_below(&r, 4)) : (int64_t)vrng_below(&r, 6)); break;
+                case K_BPUT: plan_add(p, "BPUT", 3, I, (int64_t)vrng_below(&r, (uint64_t)nbuf), vrng_chance(&r, 1, 14) ? (int64_t)(100 + vrng_below(&r, 4)) : (int64_t)(1 + vrng_below(&r, 5))); break;
+                case K_BGET: plan_add(p, "BGET", 3, I, (int64_t)vrng_below(&r, (uint64_t)nbuf), vrng_chance(&r, 1, 14) ? (int64_t)(100 + vrng_below(&r, 4)) : (int64_t)vrng_below(&r, 6)); break;
                 case K_QPUT: plan_add(p, "QPUT", 3, I, (int64_t)vrng_below(&r, (uint64_t)noq), vrng_chance(&r, 1, 10) ? (int64_t)(1 + vrng_below(&r, 2)) : (int64_t)0); break;
                 case K_QGET: plan_add(p, "QGET", 2, I, (int64_t)vrng_below(&r, (uint64_t)noq)); break;
                 case K_KPUT: plan_add(p, "KPUT", 4, I, (int64_t)vrng_below(&r, (uint64_t)npq), g_prio(&r, pmode ? pmode : 1), (int64_t)(vrng_chance(&r, 1, 8) ? 1 : 0)); break;
